@@ -320,6 +320,71 @@ def near_identity_case(seed):
     return None
 
 
+def edited_list_case(seed):
+    """sequence family: ONE backend object and ONE list object, evaluated, edited in place (an item replaced, an item's matrix
+    exchanged, pop + append, an item inserted, a pair reversed) and evaluated again - every evaluation has to return the state
+    of the list as it is at that moment.  Also an Optimizer per step on the same list object.  Exact integer data.
+    Returns None or (description, failure text)."""
+    import random
+    from quantum_gates._simulation.backend import BinaryBackend
+    rng = random.Random(seed)
+    n = rng.randint(1, 4)
+
+    def item():
+        if n >= 2 and rng.random() < 0.4:
+            a, b = rng.sample(range(n), 2)
+            return [rand_dense(rng, 4) if rng.random() < 0.5 else rand_monomial(rng, 4), [a, b]]
+        return [rand_dense(rng, 2) if rng.random() < 0.6 else rand_monomial(rng, 2), [rng.randrange(n)]]
+
+    items = [item() for _ in range(rng.randint(1, 7))]
+    psi0 = [complex(rng.randint(-2, 2), rng.randint(-1, 1)) for _ in range(2 ** n)]
+    if not any(psi0):
+        psi0[0] = 1
+    be = BinaryBackend(n)
+    steps = []
+    for step in range(rng.randint(2, 5)):
+        if step:
+            kind = rng.choice(["replace-item", "exchange-matrix", "pop-append", "insert", "edit-matrix-in-place", "same"])
+            i = rng.randrange(len(items))
+            if kind == "replace-item":
+                items[i] = item()
+            elif kind == "exchange-matrix":
+                d = items[i][0].shape[0]
+                items[i][0] = rand_dense(rng, d)
+            elif kind == "pop-append":
+                items.pop(i); items.append(item())
+            elif kind == "insert":
+                items.insert(i, item())
+            elif kind == "edit-matrix-in-place":
+                items[i][0][rng.randrange(2), rng.randrange(2)] += rng.choice([1, -1, 1j])
+            steps.append(kind)
+        desc = (f"one BinaryBackend({n}) and one list object, evaluated after the edits {steps}: list now "
+                f"{[[jmat(m), [int(x) for x in q]] for m, q in items]}, psi0 = {[[int(z.real), int(z.imag)] for z in psi0]}")
+        want = ref_fold(n, items, np.array(psi0, dtype=complex)[:, None])[:, 0]
+        try:
+            out = np.asarray(be.statevector(items, np.array(psi0, dtype=complex)))
+        except Exception as e:                                 # noqa
+            return desc, f"statevector raised {type(e).__name__} on a well-formed list"
+        if out.shape != want.shape or not same(out, want)[0]:
+            return desc, (f"evaluation {step + 1} returned {[[float(z.real), float(z.imag)] for z in out]}, applying the items of the "
+                          f"current list one after another gives {[[float(z.real), float(z.imag)] for z in want]}")
+        if rng.random() < 0.5:
+            lvl = rng.choice(LEVELS)
+            e, o = None, None
+            from quantum_gates._utility.circ_optimizer import Optimizer
+            X = np.eye(2 ** n, dtype=complex)
+            ref = ref_fold(n, items, X)
+            try:
+                o = Optimizer(level_opt=lvl, circ_list=items, qubit_list=list(range(n))).optimize()
+            except Exception as ex:                            # noqa
+                return desc, f"Optimizer level {lvl} raised {type(ex).__name__}"
+            if not same(ref_fold(n, [[np.asarray(m, dtype=complex), list(q)] for m, q in o], X), ref)[0]:
+                return desc, f"Optimizer level {lvl} on the same list object: the returned list is not equivalent to the list"
+            if not same(ref_fold(n, items, X), ref)[0]:
+                return desc, f"Optimizer level {lvl} changed what the caller's list computes (a matrix of the input list was overwritten)"
+    return None
+
+
 # ------------------------------------------------------------------ comparison with the model
 def items_match(out, model_items):
     """exact diff of the returned list against the model's list (matrices and qubit lists)"""
@@ -771,7 +836,21 @@ def main(ctx):
         sd, (desc, text) = ni_bad
         ctx.violation({"op": "near-identity", "error": "gate-dropped"}, {"mode": "near-identity", "seed": sd, "case": desc, "failure": text},
                       f"{desc}: {text}")
-    if not failures and not ni_bad and not twice_failures:
+    # sequence family: one backend object, one list object, edited between evaluations
+    ed_bad = None
+    ned = 150 if ctx.thorough else 40
+    for k in range(ned):
+        sd = ctx.seed * 92821 + k
+        r = edited_list_case(sd)
+        ctx.count()
+        if r is not None and ed_bad is None:
+            ed_bad = (sd, r)
+    cov["edited_list_sequences"] = ned
+    if ed_bad:
+        sd, (desc, text) = ed_bad
+        ctx.violation({"op": "edited-list", "error": "stale-or-overwritten"}, {"mode": "edited-list", "seed": sd, "case": desc, "failure": text},
+                      f"{desc}: {text}")
+    if not failures and not ni_bad and not twice_failures and not ed_bad:
         if mismatches:
             ctx.violation({"kind": "correspondence"},
                           {"first": mismatches[0], "count": len(mismatches),
@@ -848,6 +927,9 @@ def replay(ctx, path):
     if rp.get("mode") == "near-identity":
         r = near_identity_case(rp["seed"])
         print("near-identity case:", r or "holds"); return 1 if r else 0
+    if rp.get("mode") == "edited-list":
+        r = edited_list_case(rp["seed"])
+        print("edited-list sequence:", r or "holds"); return 1 if r else 0
     if "items" not in rp:
         print("replay names a broken obligation / correspondence, no input to re-run:", json.dumps(rp)[:600]); return 1
     n, level = rp["n"], rp["level"]
